@@ -21,8 +21,12 @@ echo "== demo without change (expect PASS)"; go test -vet=off -count=1 -run Test
 git apply $out/patch.diff
 echo "demo_with_change_rc=$a suite_with_change_rc=$b demo_without_change_rc=$c"
 cd /repo && git apply $out/patch.diff || { echo "PATCH DOES NOT APPLY"; exit 2; }
+# the evidence of the unchanged tree is kept: a run against a seeded tree must not replace it
+keep=$(mktemp -d); cp -a /verif/evidence/$prop.json $keep/ 2>/dev/null; mkdir -p $keep/replay; cp -a /verif/evidence/replay/$prop-* $keep/replay/ 2>/dev/null
 cd /verif && ./check $prop quick > /tmp/seed_check.txt 2>&1; rc=$?
 git -C /repo checkout -- .
+mkdir -p $out/replay; rm -f $out/replay/*; cp -a /verif/evidence/replay/$prop-* $out/replay/ 2>/dev/null
+rm -f /verif/evidence/replay/$prop-*; cp -a $keep/$prop.json /verif/evidence/ 2>/dev/null; cp -a $keep/replay/. /verif/evidence/replay/ 2>/dev/null; rm -rf $keep
 grep -c VIOLATION /tmp/seed_check.txt | sed 's/^/violations reported: /'
 grep "VIOLATION\|MACHINERY" /tmp/seed_check.txt | cut -c1-200 | head -4
 tail -1 /tmp/seed_check.txt | cut -c1-200
